@@ -503,7 +503,13 @@ where
             return;
         }
         // matrix of weighted model function values
-        let Phi_w = self.model.eval().ok().map(|Phi| &self.weights * Phi);
+        // (a non-finite matrix must not be handed to the SVD, which might panic or not terminate)
+        let Phi_w = self
+            .model
+            .eval()
+            .ok()
+            .map(|Phi| &self.weights * Phi)
+            .filter(|Phi_w| Phi_w.iter().all(|v| v.is_finite()));
 
         // calculate the svd
         let svd_epsilon = self.svd_epsilon;
@@ -642,7 +648,13 @@ where
             return;
         }
         // matrix of weighted model function values
-        let Phi_w = self.model.eval().ok().map(|Phi| &self.weights * Phi);
+        // (a non-finite matrix must not be handed to the SVD, which might panic or not terminate)
+        let Phi_w = self
+            .model
+            .eval()
+            .ok()
+            .map(|Phi| &self.weights * Phi)
+            .filter(|Phi_w| Phi_w.iter().all(|v| v.is_finite()));
 
         // calculate the svd
         let svd_epsilon = self.svd_epsilon;
